@@ -98,12 +98,21 @@ class Lexer:
         return self.nextToken < len(self.tokens)
 
     def next(self):
+        if not self.hasNext():
+            raise CklSyntaxError("Unexpected end of input", self.getPosEnd())
         result = self.tokens[self.nextToken]
         self.nextToken += 1
         return result
 
     def peek(self):
+        if not self.hasNext():
+            raise CklSyntaxError("Unexpected end of input", self.getPosEnd())
         return self.tokens[self.nextToken]
+
+    def getPosEnd(self):
+        if not self.tokens:
+            return SourcePos(self.name, 1, 1)
+        return self.tokens[-1].pos
 
     def eat(self, n):
         self.nextToken += n
